@@ -312,7 +312,7 @@ def run(tier):
     # under-determined problems (m < n: the library switches its growing defaults on the first run) with every kind of restart actually happening
     for j in range(24 if tier == "quick" else 240):
         nn = 3 + j % 2
-        insts.append(dict(id=7000 + j, seed=int(rng.integers(0, 2 ** 31 - 1)), n=nn, m=int(rng.integers(1, nn)), prob=["nl", "lin"][j % 2], restarts=["hard", "hardnew", "soft"][j % 3],
+        insts.append(dict(id=17000 + j, seed=int(rng.integers(0, 2 ** 31 - 1)), n=nn, m=int(rng.integers(1, nn)), prob=["nl", "lin"][j % 2], restarts=["hard", "hardnew", "soft"][j % 3],
                           maxunsucc=3, noise_sd=1e-2, rhoend=1e-3, maxfun=int(rng.integers(120, 260)), bounds=["none", "both"][(j // 6) % 2]))
     tcov, _ = sc.trace_part("C07", insts, V, os.path.join(wd, "traces"))
     # a hang observed in a whole-solver corpus (liveness of the real code) is also a C07 matter: covered by the trace checks' `terminates` clause
